@@ -46,6 +46,7 @@ def run(ctx):
     _shape(ctx)
     from . import _dump
     _dump.mode_sanitised(ctx, 'C06.D1', 'dumper')
+    _dump.single_traversal(ctx, 'C06.D1')
     _rewrapped(ctx)
     _zinc.version_threading(ctx, 'C06.D2', 'jsondumper')
     for version in ('3.0', '2.0'):
